@@ -106,9 +106,10 @@ type Module struct {
 	MemMax     int64 // -1 = none
 	MemShared  bool
 	MemImport  bool
-	FuelGlob   string // export name of the fuel global ("" if fuel disabled)
-	HostModule string // module name under which the host imports are expected
-	Start      int    // function index of the start function, -1 if none
+	FuelGlob   string      // export name of the fuel global ("" if fuel disabled)
+	HostModule string      // module name under which the host imports are expected
+	Sink       *GlobalInfo // global into which discarded values are folded (nil if none)
+	Start      int         // function index of the start function, -1 if none
 	Text       []string
 	Features   Feature
 	NumData    int
